@@ -1,0 +1,53 @@
+// Verification contracts (comment-only, compiled only with the "verif" build tag; read by /verif/govc).
+
+//go:build verif
+// +build verif
+
+package state
+
+// Contracts for the validator statistics (validator.go) — property C08, clause 1:
+// the aggregate statistics change by exactly the contribution of the validator added or removed.
+
+// Representation invariant of a statistics bucket: its six big integers exist and are pairwise distinct objects.
+//@ spec func statWF(v: *ValKindStat) bool =
+//@     v.onlineStake != nil && v.onlineToken != nil && v.offlineStake != nil && v.offlineToken != nil &&
+//@     v.onlineStake != v.onlineToken && v.onlineStake != v.offlineStake && v.onlineStake != v.offlineToken &&
+//@     v.onlineToken != v.offlineStake && v.onlineToken != v.offlineToken && v.offlineStake != v.offlineToken
+
+// The validator's amounts are not the bucket's own counters (a record never aliases the statistics).
+//@ spec func statSep(v: *ValKindStat, val: *Validator) bool =
+//@     val.Stake != nil && val.Token != nil &&
+//@     val.Stake != v.onlineStake && val.Stake != v.onlineToken && val.Stake != v.offlineStake && val.Stake != v.offlineToken &&
+//@     val.Token != v.onlineStake && val.Token != v.onlineToken && val.Token != v.offlineStake && val.Token != v.offlineToken
+
+//@ func (*ValKindStat).AddVal props C08
+//@ panics none
+//@ requires v != nil && val != nil && statWF(v) && statSep(v, val)
+//@ modifies big(v.onlineStake), big(v.onlineToken), v.onlineCount, big(v.offlineStake), big(v.offlineToken), v.offlineCount
+//@ ensures [online] val.Status == params.ValidatorOnline ==>
+//@     big(v.onlineStake) == old(big(v.onlineStake)) + big(val.Stake) && big(v.onlineToken) == old(big(v.onlineToken)) + big(val.Token) &&
+//@     v.onlineCount == wrap64(old(v.onlineCount) + 1) &&
+//@     big(v.offlineStake) == old(big(v.offlineStake)) && big(v.offlineToken) == old(big(v.offlineToken)) && v.offlineCount == old(v.offlineCount)
+//@ ensures [offline] val.Status != params.ValidatorOnline ==>
+//@     big(v.offlineStake) == old(big(v.offlineStake)) + big(val.Stake) && big(v.offlineToken) == old(big(v.offlineToken)) + big(val.Token) &&
+//@     v.offlineCount == wrap64(old(v.offlineCount) + 1) &&
+//@     big(v.onlineStake) == old(big(v.onlineStake)) && big(v.onlineToken) == old(big(v.onlineToken)) && v.onlineCount == old(v.onlineCount)
+//@ ensures [val-unchanged] big(val.Stake) == old(big(val.Stake)) && big(val.Token) == old(big(val.Token))
+
+// SubVal under the invariant "the bucket holds at least this validator's contribution": exact subtraction,
+// i.e. the silent clamps (`if Cmp >= 0`) and the wrap of the counter are unreachable.
+//@ func (*ValKindStat).SubVal props C08
+//@ panics none
+//@ requires v != nil && val != nil && statWF(v) && statSep(v, val)
+//@ requires val.Status == params.ValidatorOnline ==> big(v.onlineStake) >= big(val.Stake) && big(v.onlineToken) >= big(val.Token) && v.onlineCount >= 1
+//@ requires val.Status != params.ValidatorOnline ==> big(v.offlineStake) >= big(val.Stake) && big(v.offlineToken) >= big(val.Token) && v.offlineCount >= 1
+//@ modifies big(v.onlineStake), big(v.onlineToken), v.onlineCount, big(v.offlineStake), big(v.offlineToken), v.offlineCount
+//@ ensures [online] val.Status == params.ValidatorOnline ==>
+//@     big(v.onlineStake) == old(big(v.onlineStake)) - big(val.Stake) && big(v.onlineToken) == old(big(v.onlineToken)) - big(val.Token) &&
+//@     v.onlineCount == old(v.onlineCount) - 1 &&
+//@     big(v.offlineStake) == old(big(v.offlineStake)) && big(v.offlineToken) == old(big(v.offlineToken)) && v.offlineCount == old(v.offlineCount)
+//@ ensures [offline] val.Status != params.ValidatorOnline ==>
+//@     big(v.offlineStake) == old(big(v.offlineStake)) - big(val.Stake) && big(v.offlineToken) == old(big(v.offlineToken)) - big(val.Token) &&
+//@     v.offlineCount == old(v.offlineCount) - 1 &&
+//@     big(v.onlineStake) == old(big(v.onlineStake)) && big(v.onlineToken) == old(big(v.onlineToken)) && v.onlineCount == old(v.onlineCount)
+//@ ensures [val-unchanged] big(val.Stake) == old(big(val.Stake)) && big(val.Token) == old(big(val.Token))
